@@ -113,6 +113,9 @@ const bool QUIET = true;
 const bool VERBOSE = false;
 const int[] GT = [7, 8];
 string GS = "glob";
+int[] GM = [10, 20, 30];
+bool[] GMB = [false, true];
+int bumpg() { GM[0] = 99; GM[1] += 1; GMB[0] = true; return 0; }
 int twice() { int[] t = [3, 4]; t[1] += 1; return t[1]; }
 int bump(int[] a) { a[0] += 1; return a[0]; }
 int loopsum() { int s = 0; for (int i = 0; i < 3; i += 1) { int[] t = [10, 20]; t[0] += i + 1; s += t[0]; byte[] u = ['a']; u[0] += 1; s += u[0]; } return s; }
@@ -133,6 +136,8 @@ EFFECT_EXPRS = [
     '((tab[ten] > 15) and VERBOSE) is int', '((GS[ten] is int > 1) and VERBOSE) is int', '(false and (tab[ten] > 1)) is int', '(true or (7 / z > 0)) is int',
     '(VERBOSE and (tab[ten] > 1)) is int', '(QUIET or (7 / z > 0)) is int', '(0 * tab[ten])', '(tab[ten] - tab[ten])', '((GS[ten] is int) * 0)', '(tab[ten] % 1)',
     '(3 ?? tab[ten])', '(3 ?? (7 / z))', '(KM ?? GT[ten])', '(QUIET ?? (7 / z > 0)) is int',
+    # a mutable global array is not a table of constants, whatever its initialiser and however constant the index
+    '(GM[0] + bumpg() + GM[0])', '(bumpg() + GM[1] + GM[KM + 2])', '(bumpg() + (GMB[0] is int))', '(GM[2] + GM.length)',
     # a mutable literal with constant elements is a fresh array each time it is evaluated
     'twice() + twice()', 'bump([5, 6]) + bump([5, 6])', 'loopsum()',
 ]
@@ -326,7 +331,11 @@ def cli_twin(st, W):
                 st.viol(f'W={W}: command-line compile of constant-form batch failed: {p.stderr.decode()[-200:]}', case)
                 continue
             lines = open(path + '.s', 'rb').read().split(b'\n')
-            r = svm.run(svm.assemble(lines, [], strict_header=True), 2_000_000)
+            try:
+                r = svm.run(svm.assemble(lines, [], strict_header=True), 2_000_000)
+            except svm.AsmError as e:
+                st.viol(f'W={W}: the assembler rejects what `python -m hidc -m{8 * W}` wrote: {e}', case)
+                continue
             st.vm(r)
             want = b''.join(l for _, _, l in part)
             if r.outcome != 'loop' or r.output != want:
